@@ -8,7 +8,8 @@ LEVEL = "exploration"
 RULE = ("seeded random bounded problems x adversarial x0 placement x option space; every recorded objfun argument and "
         "soln.x tested exactly against [lower, upper]; a case is non-trivial (and counted once per distinct configuration "
         "hash) when it is bounded, made >= 1 evaluation and at least one evaluated coordinate lay exactly on a bound "
-        "(i.e. clipping was active)")
+        "(i.e. clipping was active)"
+        ' Second session: termination enumeration (run ended at every budget and at every new minimum of active-bound references, half of them growing with new directions every iteration); integer-typed starts outside non-integer bounds; growing sets with more than n directions; calling forms (gen.FORMS) sampled.')
 ASSUMPTIONS = ["the recorder sees exactly the arrays dfols passes to objfun (copied before the call)",
                "numpy comparisons are exact IEEE comparisons",
                "sampled, not exhaustive: held on the executions listed under coverage"]
